@@ -281,6 +281,9 @@ def worker(args):
             if variant in ('flex', 'flexunion'):
                 hutil.discharge(chk, ex, label + ':recorded-size==allocated-size',
                                 simp(ex.mem.load(structobj + 40, 8)) == size1, inputs)
+                # ffi.sizeof(p[0]): p[0] of an owning struct/union pointer is that very object
+                sz = simp(ex.call('direct_sizeof_cdata', [structobj]))
+                hutil.discharge(chk, ex, label + ':sizeof(p[0])==allocated-size', bv(sz, 64) == size1, inputs)
             same = [ex.mem.byte_expr(d1 + j) for j in range(need)]
             other = [ex.mem.byte_expr(d2 + j) for j in range(need)]
             hutil.discharge(chk, ex, label + ':same-bytes-as-new+assign',
